@@ -119,6 +119,9 @@ func Generate(r Rng, p Params) *World {
 		w.Tables = append(w.Tables, g.key())
 	}
 	w.Programs = []solana.PublicKey{solana.SystemProgramID, solana.TokenProgramID, g.key(), g.key()}
+	for _, k := range p.ExtraAccounts {
+		w.Accounts = append(w.Accounts, solana.PublicKey(k))
+	}
 
 	// plan: slots and transaction counts
 	plans := make([]blockPlan, p.NumBlocks)
@@ -139,6 +142,9 @@ func Generate(r Rng, p Params) *World {
 		}
 		plans[i].slot = slot
 		ne := g.between(1, p.MaxEntries)
+		if p.EmptyBlockProb > 0 && g.chance(p.EmptyBlockProb) {
+			ne = 0
+		}
 		plans[i].entries = make([]int, ne)
 		for e := range plans[i].entries {
 			plans[i].entries[e] = g.between(0, p.MaxTxPerEntry)
@@ -147,6 +153,9 @@ func Generate(r Rng, p Params) *World {
 	}
 	if total == 0 {
 		bi := g.intn(len(plans))
+		if len(plans[bi].entries) == 0 { // an empty block (EmptyBlockProb) was picked
+			plans[bi].entries = make([]int, 1)
+		}
 		plans[bi].entries[g.intn(len(plans[bi].entries))] = 1
 	}
 	perSubset := p.BlocksPerSubset
@@ -280,10 +289,16 @@ func (g *gen) emitBlock(b *Block, pl blockPlan, heightMode int) {
 	for _, pe := range pending {
 		flushEntry(pe)
 	}
-	copy(b.Blockhash[:], b.Entries[len(b.Entries)-1].Hash)
+	if len(b.Entries) > 0 {
+		copy(b.Blockhash[:], b.Entries[len(b.Entries)-1].Hash)
+	} else {
+		copy(b.Blockhash[:], g.bytes(32))
+	}
 
 	// rewards
-	if g.chance(p.NoRewardsProb) {
+	if len(b.Entries) == 0 {
+		b.RewardsCid = DummyCid // a childless block
+	} else if g.chance(p.NoRewardsProb) {
 		b.RewardsCid = DummyCid
 	} else {
 		g.emitRewards(b)
